@@ -59,7 +59,15 @@ def seeds_table():
                      m.get("caught_by", ""), m.get("first_run", "")))
     if not rows:
         return "(seeded changes are being confirmed)\n"
-    out = ["| seed | property | change | caught by | on first run? |", "|---|---|---|---|---|"]
+    first = sum(1 for r in rows if r[4] is True)
+    out = [f"{len(rows)} confirmed seeds (each re-confirmed here: existing tests green with the "
+           f"change, only the demonstration fails, demonstration green without it): {first} were "
+           f"reported by the property's own check the first time it was run against them, "
+           f"{len(rows) - first} were first missed (or reported only under a neighbouring "
+           "property) and led to the rule named in the table; all are now part of the thorough "
+           "tier.  `seeded/_neutralised/` holds one seed whose change stopped being a violation "
+           "after a `fix:` commit.", "",
+           "| seed | property | change | caught by | on first run? |", "|---|---|---|---|---|"]
     for r in rows:
         out.append("| " + " | ".join(str(x).replace("|", "\\|") for x in r) + " |")
     return "\n".join(out) + "\n"
